@@ -21,15 +21,20 @@ Modelled (branch for branch where the property depends on it):
                   (layer-major), then horizontal faces, cell (c,layer) ↦ c + layer·C, cell/face maps
                   `arange(c, C·L, C)`, `arange(f, F·L, F)`
 
-The model follows the PROPERTY where the code at the pinned commit deviates from it (recorded in
-known_findings.d/C23.json, repairs in fixes/C23-*.diff):
-  * `refine_triangle_grid` pairs the shared corner node with the wrong cell when the duplicated
-    node does not sit at the same sorted position in all cells (`np.argwhere` is row-major);
-    the model uses the shared node of the cell's own two faces;
-  * `refine_triangle_grid` returns `parent = tile(arange(nc), 4)` although the children of cell `c`
-    are the columns `4c … 4c+3`; the model returns `j / 4`;
-  * `_extrude_1d` signs the vertical faces by their stored position (−1, +1) instead of inheriting
-    the base grid's signs, and raises for base grids that store some cell's faces as (+1, −1).
+  `coupleLayers`  `extrude_mdg`: new interface face-cell pairs = old pairs copied layer by layer through
+                  the cell map of the low-dimensional and the face map of the high-dimensional grid;
+                  faces on the second mortar side (`faces > median(faces)`), mortar cell count
+  `cartBox` …     nested Cartesian grids for the sweep: coarse boxes, fine cell centres, `coarseOf`
+  `facesOrdered`  cyclic node order of the faces of the extruded 3-d grid: vertical faces
+                  `(a_k, b_k, b_{k+1}, a_{k+1})`, flipped according to sign / `is_ccw_polyline` / direction
+                  of extrusion; horizontal faces = the cell's node cycle, counter-clockwise for upward
+                  and clockwise for downward extrusion
+
+Three deviations of the code from the property were found with this model and repaired in /repo
+(fixes/C23-*.diff, applied): the corner nodes of `refine_triangle_grid` were paired with the wrong
+cell (`np.argwhere` is row-major), its parent map was `tile` instead of `repeat`, and `_extrude_1d`
+signed vertical faces by stored position instead of inheriting the base grid's signs.  The model is
+the repaired behaviour, which is now also the code's.
 -/
 namespace PorepyVerif.C23
 
@@ -250,9 +255,7 @@ def horizontalFaces (nn : Nat) (cn : List (List Nat)) (nodeLayers : Nat) : List 
 /-- cell `(c, k)` = number `c + k·C`: its vertical faces are the base cell's faces shifted by
     `k·stride` with the base cell's signs, plus the horizontal faces below (−1) and above (+1).
     `stride` is `num_faces` in `_extrude_2d` and `num_nodes` in `_extrude_1d` (equal for 1-d grids).
-    (`_extrude_1d` at the pinned commit replaces the inherited signs by the positional pattern
-    (−1, +1); that is only consistent if every base cell stores its faces in that order — recorded
-    as a finding, the model follows the repaired behaviour, which is that of `_extrude_2d`.) -/
+    Both inherit the base grid's signs for the vertical faces. -/
 def extrudeCells (b : Base) (layers : Nat) : List (List (Nat × Int)) :=
   let nc := b.cf.length
   let fv := b.fn.length * layers
@@ -307,5 +310,188 @@ def extrudedMeasures (base : List Rat) (z : List Rat) : List Rat :=
 
 /-- six times the signed volume of the tetrahedron (a, b, c, d) -/
 def tet6 (a b c d : V3) : Rat := V3.dot (V3.cross (V3.sub b a) (V3.sub c a)) (V3.sub d a)
+
+/-! ### extrude_mdg: interface bookkeeping -/
+
+/-- new (low-dim cell, high-dim face) pairs: every old pair `(c, f)` is replaced by the pairs
+    `(cell_map[c][k], face_map[f][k])`, `k < L` (`rows`/`cols` of the new face-cell matrix) -/
+def coupleLayers (ncLow nfHigh L : Nat) (pairs : List (Nat × Nat)) : List (Nat × Nat) :=
+  (pairs.map (fun cf => (List.range L).map (fun k => (cf.1 + k * ncLow, cf.2 + k * nfHigh)))).flatten
+
+def insertSorted (x : Nat) : List Nat → List Nat
+  | [] => [x]
+  | y :: ys => if x ≤ y then x :: y :: ys else y :: insertSorted x ys
+
+def isort : List Nat → List Nat
+  | [] => []
+  | x :: xs => insertSorted x (isort xs)
+
+/-- twice `np.median` of a list of naturals -/
+def twiceMedian (l : List Nat) : Nat :=
+  let s := isort l
+  let n := s.length
+  if n % 2 = 1 then 2 * s.getD (n / 2) 0 else s.getD (n / 2 - 1) 0 + s.getD (n / 2) 0
+
+/-- `faces[idx] > np.median(faces)`: the old face lies on the second side of the fracture -/
+def aboveMedian (pairs : List (Nat × Nat)) (f : Nat) : Bool :=
+  decide (twiceMedian (pairs.map (·.2)) < 2 * f)
+
+/-- `face_on_other_side`: the extruded copies of the old faces above the median -/
+def otherSide (nfHigh L : Nat) (pairs : List (Nat × Nat)) : List Nat :=
+  ((pairs.filter (fun cf => aboveMedian pairs cf.2)).map (fun cf => arange cf.2 nfHigh L)).flatten
+
+/-- cells of the new mortar grid: one copy of the extruded low-dimensional grid per side -/
+def mortarCells (sides ncLow L : Nat) : Nat := sides * (ncLow * L)
+
+/-! ### nested Cartesian grids for the structured_refinement sweep -/
+
+/-- coarse cell `c` of a uniform grid with origin `x0` and cell size `h` -/
+def cartCell1d (x0 h : Rat) (c : Nat) : Rat × Rat := (x0 + (c : Rat) * h, x0 + ((c + 1 : Nat) : Rat) * h)
+
+/-- centre of fine cell `i` when every coarse cell is split into `r` equal parts -/
+def cartCentre1d (x0 h : Rat) (r i : Nat) : Rat :=
+  x0 + ((2 * i + 1 : Nat) : Rat) / ((2 * r : Nat) : Rat) * h
+
+abbrev Idx3 := Nat × Nat × Nat
+abbrev R3 := Rat × Rat × Rat
+abbrev Box := (Rat × Rat) × (Rat × Rat) × (Rat × Rat)
+
+def insideBox (cell : Box) (p : R3) : Bool :=
+  inside1d cell.1 p.1 && inside1d cell.2.1 p.2.1 && inside1d cell.2.2 p.2.2
+
+def cartBox (o h : R3) (c : Idx3) : Box :=
+  (cartCell1d o.1 h.1 c.1, cartCell1d o.2.1 h.2.1 c.2.1, cartCell1d o.2.2 h.2.2 c.2.2)
+
+def cartCentre (o h : R3) (r i : Idx3) : R3 :=
+  (cartCentre1d o.1 h.1 r.1 i.1, cartCentre1d o.2.1 h.2.1 r.2.1 i.2.1, cartCentre1d o.2.2 h.2.2 r.2.2 i.2.2)
+
+/-- the index formula: fine cell `(i, j, k)` lies in coarse cell `(i / rx, j / ry, k / rz)` -/
+def coarseOf (r i : Idx3) : Idx3 := (i.1 / r.1, i.2.1 / r.2.1, i.2.2 / r.2.2)
+
+/-- x-fastest enumeration of the cells of an `nx × ny × nz` grid -/
+def cartCells (n : Idx3) : List Idx3 :=
+  ((List.range n.2.2).map (fun k => ((List.range n.2.1).map (fun j =>
+    (List.range n.1).map (fun i => (i, j, k)))).flatten)).flatten
+
+/-- the sweep on nested Cartesian grids (2-d: `nz = rz = 1`) -/
+def cartSweep (o h : R3) (n r : Idx3) : List (List Nat) :=
+  assign insideBox ((cartCells n).map (cartBox o h))
+    (enum ((cartCells (n.1 * r.1, n.2.1 * r.2.1, n.2.2 * r.2.2)).map
+      (cartCentre o h r)))
+
+/-! ### cyclic node order of the faces of the extruded 3-d grid -/
+
+/-- `is_ccw_polyline(a, b, c)` with tolerance 0 -/
+def ccwPolyline (a b c : P2) : Bool := decide (0 < area2 a b c)
+
+/-- the flip decision of `_extrude_2d` for a vertical face: `sgn` is the sign of the face in the
+    first cell that has it, `ccw` whether that cell's centre is to the left of the face's node
+    pair, `neg` whether the extrusion goes downwards -/
+def flipOf (sgn : Int) (ccw neg : Bool) : Bool :=
+  xor ((decide (0 < sgn) && !ccw) || (decide (sgn < 0) && ccw)) neg
+
+/-- vertical face over the base face `(a, b)` in layer `k`: `(a_k, b_k, b_{k+1}, a_{k+1})`, or with
+    `a` and `b` exchanged when flipped -/
+def verticalFaceOrdered (nn a b : Nat) (flip : Bool) (k : Nat) : List Nat :=
+  if flip then [b + k * nn, a + k * nn, a + (k + 1) * nn, b + (k + 1) * nn]
+  else [a + k * nn, b + k * nn, b + (k + 1) * nn, a + (k + 1) * nn]
+
+/-- first cell (lowest index) that has face `f`, with the sign of `f` in it -/
+def firstCellOf (f : Nat) : List (List (Nat × Int)) → Nat → Option (Nat × Int)
+  | [], _ => none
+  | fs :: rest, c =>
+    match fs.find? (fun fsg => fsg.1 == f) with
+    | some fsg => some (c, fsg.2)
+    | none => firstCellOf f rest (c + 1)
+
+def v3xy (p : V3) : P2 := ⟨p.x, p.y⟩
+
+/-- an interior point of a convex cell: the average of its nodes (the code uses the cell centre;
+    any interior point gives the same left/right decision) -/
+def cellInterior (nodes : List V3) (ns : List Nat) : P2 :=
+  let ps := ns.map (fun n => v3xy (nodeAt nodes n))
+  ⟨rsum (ps.map (·.x)) / (ps.length : Rat), rsum (ps.map (·.y)) / (ps.length : Rat)⟩
+
+/-- the neighbour of `cur` other than `prev` along the edges of a cell -/
+def nextNode (edges : List (Nat × Nat)) (prev cur : Nat) : Option Nat :=
+  match edges.find? (fun e => (e.1 == cur && e.2 != prev) || (e.2 == cur && e.1 != prev)) with
+  | some e => some (if e.1 == cur then e.2 else e.1)
+  | none => none
+
+def walkCycle (edges : List (Nat × Nat)) : Nat → Nat → Nat → List Nat
+  | 0, _, _ => []
+  | fuel + 1, prev, cur =>
+    match nextNode edges prev cur with
+    | some nxt => cur :: walkCycle edges fuel cur nxt
+    | none => [cur]
+
+def minNat : List Nat → Nat
+  | [] => 0
+  | [x] => x
+  | x :: xs => if x ≤ minNat xs then x else minNat xs
+
+/-- the nodes of a polygonal cell in cyclic order, starting at its smallest node and going to that
+    node's smaller neighbour first -/
+def cellCycle (edges : List (Nat × Nat)) : List Nat :=
+  let ns := edges.map (·.1) ++ edges.map (·.2)
+  let m := minNat ns
+  let nbrs := (edges.filter (fun e => e.1 == m)).map (·.2) ++ (edges.filter (fun e => e.2 == m)).map (·.1)
+  let first := minNat nbrs
+  m :: walkCycle edges (edges.length - 1) m first
+
+/-- twice the signed area of a closed polygon (shoelace formula) -/
+def shoelaceAux (p0 : P2) : List P2 → Rat
+  | a :: b :: rest => (a.x * b.y - b.x * a.y) + shoelaceAux p0 (b :: rest)
+  | [a] => a.x * p0.y - p0.x * a.y
+  | [] => 0
+
+def shoelace : List P2 → Rat
+  | [] => 0
+  | p0 :: rest => shoelaceAux p0 (p0 :: rest)
+
+/-- keep the start node, reverse the direction -/
+def reverseCycle : List Nat → List Nat
+  | [] => []
+  | m :: rest => m :: rest.reverse
+
+/-- horizontal face: the cell's node cycle, counter-clockwise for upward, clockwise for downward
+    extrusion -/
+def orientCycle (nodes : List V3) (neg : Bool) (cyc : List Nat) : List Nat :=
+  let ccw := decide (0 < shoelace (cyc.map (fun n => v3xy (nodeAt nodes n))))
+  if xor ccw neg then cyc else reverseCycle cyc
+
+/-- all faces of the extruded 2-d grid with their cyclic node order: vertical faces layer by layer,
+    then the horizontal faces of every node layer -/
+def facesOrdered (b : Base) (z : List Rat) : List (List Nat) :=
+  let layers := z.length - 1
+  let nn := b.nodes.length
+  let neg := z.all (fun v => decide (v ≤ 0))
+  let flips := (List.range b.fn.length).map (fun f =>
+    match b.fn.getD f [], firstCellOf f b.cf 0 with
+    | [a, bb], some (c, sgn) =>
+      (a, bb, flipOf sgn (ccwPolyline (v3xy (nodeAt b.nodes a)) (v3xy (nodeAt b.nodes bb))
+        (cellInterior b.nodes (b.cn.getD c []))) neg)
+    | _, _ => (0, 0, false))
+  let vert := ((List.range layers).map (fun k =>
+    flips.map (fun abf => verticalFaceOrdered nn abf.1 abf.2.1 abf.2.2 k))).flatten
+  let cycles := b.cf.map (fun fs =>
+    orientCycle b.nodes neg (cellCycle (fs.map (fun fsg =>
+      match b.fn.getD fsg.1 [] with
+      | [a, bb] => (a, bb)
+      | _ => (0, 0)))))
+  let hor := ((List.range (layers + 1)).map (fun j => cycles.map (fun cyc => cyc.map (· + j * nn)))).flatten
+  vert ++ hor
+
+/-- coordinates of a vertical face over the base edge `(A, B)` between `z0` and `z1`, in the node
+    order of `verticalFaceOrdered` -/
+def vertFaceCoords (A B : P2) (z0 z1 : Rat) (flip : Bool) : List V3 :=
+  if flip then [⟨B.x, B.y, z0⟩, ⟨A.x, A.y, z0⟩, ⟨A.x, A.y, z1⟩, ⟨B.x, B.y, z1⟩]
+  else [⟨A.x, A.y, z0⟩, ⟨B.x, B.y, z0⟩, ⟨B.x, B.y, z1⟩, ⟨A.x, A.y, z1⟩]
+
+/-- normal of a planar quadrilateral / triangle given in cyclic order: `(q1 - q0) × (q_last - q0)` -/
+def faceNormal : List V3 → V3
+  | [q0, q1, _, q3] => V3.cross (V3.sub q1 q0) (V3.sub q3 q0)
+  | [q0, q1, q2] => V3.cross (V3.sub q1 q0) (V3.sub q2 q0)
+  | _ => V3.zero
 
 end PorepyVerif.C23
